@@ -120,6 +120,8 @@ class C06(Check):
             indicators=["Tardiness", "Earliness", "NumberOfTardyTasks", "MaximumLateness", "ResourceUtilization", "NumberTasksAssigned", "ResourceCost"] if rng.random() < 0.4 else [],
             n_indicators=(1, 2), objectives=["MinimizeFlowtime", "Priorities", "TasksStartEarliest", "MinimizeMakespan"] if rng.random() < 0.2 else [], n_objectives=(1, 1),
         )
+        if rng.random() < 0.12:
+            prof = gen.profile(**gen.FOCUS["crowded-placeholders"])
         spec = gen.gen_spec(keyed_rng(run_seed, "spec"), prof)
         if not any(t.get("optional") for t in spec["tasks"]):
             spec["tasks"][0]["optional"] = True
